@@ -1641,11 +1641,13 @@ def r_punctsel(prog, tier):
                     if len(as_) != 1 or not as_[0].pol:
                         return False
                     t_ = as_[0].ast
-                    if not (isinstance(t_, ast.Compare) and len(t_.ops) == 1 and isinstance(t_.ops[0], ast.Is)
+                    if not (isinstance(t_, ast.Compare) and len(t_.ops) == 1 and isinstance(t_.ops[0], (ast.Is, ast.Eq))
                             and isinstance(t_.left, ast.Name) and isinstance(t_.comparators[0], ast.Constant)
                             and t_.comparators[0].value is None):
                         return False
-                    dv_ = [v_ for (_, v_) in name_defs(f, t_.left.id)]
+                    alld_ = name_defs(f, t_.left.id)
+                    ids_ = frozenset(d_ for (d_, _) in alld_)
+                    dv_ = [v_ for (d_, v_) in alld_ if b_.id in cfg.reach(d_, avoid=ids_ - {d_})]
                     return bool(dv_) and all(isinstance(v_, ast.Call) and unparse(v_.func) == 'next' and len(v_.args) == 2
                                              and isinstance(v_.args[1], ast.Constant) and v_.args[1].value is None for v_ in dv_)
                 brk = [b for b in brk if not _exhausted(b)]
